@@ -5,6 +5,7 @@ import (
 	"errors"
 	"io"
 	"math"
+	"reflect"
 
 	"github.com/google/uuid"
 
@@ -524,7 +525,10 @@ func (n NBTField) ReadFrom(r io.Reader) (int64, error) {
 		if !errors.Is(err, nbt.ErrEND) || cr.n != 1 {
 			return cr.n, err
 		}
-		err = nil
+		// No value on the wire: forget what a reused destination held before.
+		if v := reflect.ValueOf(n.V); v.Kind() == reflect.Ptr && !v.IsNil() {
+			v.Elem().Set(reflect.Zero(v.Elem().Type()))
+		}
 	}
 	return cr.n, nil
 }
